@@ -57,6 +57,16 @@ class GenBranch:
             self.ok = False
             return
         self.roles[self.factory_var] = "FACTORY"
+        # the lookup key held in a local: its name is irrelevant, its definition is compared
+        self.key_def = None
+        fl_ = self.factory_lookup.value
+        key_expr = fl_.slice if isinstance(fl_, ast.Subscript) else (fl_.args[0] if isinstance(fl_, ast.Call) and fl_.args else None)
+        if isinstance(key_expr, ast.Name) and key_expr.id not in f.params:
+            defs = [n for n in walk_own(f.node) if isinstance(n, (ast.Assign, ast.AnnAssign, ast.NamedExpr)) and any(isinstance(t, ast.Name) and t.id == key_expr.id for t in (n.targets if isinstance(n, ast.Assign) else [n.target]))]
+            stores = [n for n in walk_own(f.node) if isinstance(n, ast.Name) and n.id == key_expr.id and isinstance(n.ctx, (ast.Store, ast.Del))]
+            if len(defs) == 1 and len(stores) == 1 and defs[0].value is not None:
+                self.key_def = defs[0].value
+                self.roles[key_expr.id] = "KEY"
         # callable field of the factory class = the one called
         self.call = None
         self.value_var = None
@@ -128,6 +138,9 @@ class GenBranch:
         fl = self.factory_lookup.value
         if isinstance(fl, ast.Call) and isinstance(fl.func, ast.Attribute) and fl.func.attr == "get" and len(fl.args) == 1:
             fl = ast.Subscript(value=fl.func.value, slice=fl.args[0], ctx=ast.Load())
+        if isinstance(fl, ast.Subscript):
+            sig["lookup key"] = canon(self.key_def if self.key_def is not None else fl.slice, self.roles)
+            fl = ast.Subscript(value=fl.value, slice=ast.Name(id="KEY", ctx=ast.Load()), ctx=ast.Load())
         sig["factory lookup"] = canon(fl, self.roles)
         sig["factory call"] = canon(self.call, self.roles)
         for k, v in self.container_args(an).items():
